@@ -40,7 +40,8 @@ def corr_lines(ctx, rng, quick):
             out.append(f"ecdsa.sign {spec} {d} {h} {k}")
             Q = refec.mul(c, d, G)
             z = rng.randrange(2, p)
-            qrep = rng.choice([f"{Q[0]},{Q[1]},1,{n},0", f"{Q[0] * z * z % p},{Q[1] * z ** 3 % p},{z},{n},0", f"{Q[0]},{Q[1]},1,0,0"])
+            qrep = rng.choice([f"{Q[0]},{Q[1]},1,{n},0", f"{Q[0] * z * z % p},{Q[1] * z ** 3 % p},{z},{n},0", f"{Q[0]},{Q[1]},1,0,0",
+                               f"{Q[0]},{Q[1]},1,{n},1", f"{Q[0] * z * z % p},{Q[1] * z ** 3 % p},{z},{n},1"])   # precomputed public key
             e = h % (2 ** 600)
             kk = k
             R = refec.mul(c, kk, G)
@@ -146,6 +147,7 @@ def run(ctx):
         for off in range(1 if quick else 1):
             props.append(f"prop.c18tamper {name} {d} {rng.choice(hs)} {hx(m)} {k} {stride} {rng.randrange(stride)}")
         props.append(f"prop.c18range {name} {d} {rng.choice(hs)} {hx(m)}")
+        props.append(f"prop.c18hist {name} {rng.randrange(1 << 30)} {10 if quick else 60}")
     for name, h in SAME_LEN:
         c = refec_curve(ctx, name)
         for _ in range(4 if quick else 30):
